@@ -7,7 +7,6 @@ pub uninterp spec fn pb_inst(addr: Seq<char>, data: Seq<u8>) -> Seq<u8>;   // in
 pub open spec fn bin_of(s: Seq<u8>) -> Binary { Binary { b: vec_of(s) } }
 pub open spec fn wrap_exec(d: Option<Binary>) -> Option<Binary> { match d { Some(x) => Some(bin_of(pb_exec(x.b@))), None => None } }
 pub open spec fn wrap_inst(d: Option<Binary>, addr: Addr) -> Binary { bin_of(pb_inst(addr.s@, match d { Some(x) => x.b@, None => Seq::<u8>::empty() })) }
-pub open spec fn default_app() -> AppResponse { AppResponse { events: vec_of(Seq::<Event>::empty()), data: None } }
 
 impl<ExecC, QueryC> WasmKeeper<ExecC, QueryC> {
     // oracles for the registry functions (defined and proved in group wasm_registry)
@@ -15,7 +14,6 @@ impl<ExecC, QueryC> WasmKeeper<ExecC, QueryC> {
     pub uninterp spec fn update_admin_sem(&self, s: St, sender: Addr, contract_addr: Seq<char>, new_admin: Option<String>) -> (AnyResult<AppResponse>, St);
     pub uninterp spec fn contract_data_sem(&self, s: St, addr: Addr) -> AnyResult<ContractData>;
     pub uninterp spec fn save_contract_sem(&self, s: St, addr: Addr, data: ContractData) -> (AnyResult<()>, St);
-    pub open spec fn has_code(&self, code_id: u64) -> bool { self.code_data@.contains_key(code_id) }
 
     // funds move by a bank Send from `sender` to `recipient`, routed like any message; nothing happens for no funds
     pub open spec fn send_sem(router: &dyn CosmosRouter<ExecC, QueryC>, s: St, block: BlockInfo, sender: Addr, recipient: String, amount: Seq<Coin>) -> (AnyResult<AppResponse>, St) {
